@@ -134,8 +134,8 @@ BcastCell(rhs, selshape, c) ==
 Lossless(d, k) ==
   CASE d = k -> {d}
     [] d = "O" -> {"O"}
-    [] d = "f" /\ k \in {"i", "b"} -> {"f", "O"}
-    [] d = "i" /\ k = "b" -> {"i", "f", "O"}
+    [] d = "f" /\ k = "i" -> {"f", "O"}
+    [] d \in {"f", "i"} /\ k = "b" -> {"O"}          \* a boolean written into numeric data must stay a boolean
     [] d = "i" /\ k = "f" -> {"f", "O"}
     [] d = "b" /\ k \in {"i"} -> {"i", "f", "O"}
     [] d = "b" /\ k \in {"f"} -> {"f", "O"}
